@@ -58,14 +58,14 @@ type SearchResult struct {
 	Digest       string   `json:"digest,omitempty"`
 	Panic        string   `json:"panic,omitempty"`
 	PanicStack   string   `json:"panic_stack,omitempty"`
-	AbortPoll    int      `json:"abort_poll,omitempty"`   // first poll at which the abort condition was visible
-	PollsAfter   int      `json:"polls_after,omitempty"`  // polls executed from then until return
-	MaxNodesSeen int      `json:"max_nodes_seen"`         // largest Counters.Nodes observed at any poll
-	Overspend    string   `json:"overspend,omitempty"`    // first observation of Counters.Nodes > hard budget
-	Capped       bool     `json:"capped,omitempty"`       // harness safety cap closed the stop channel
-	SimElapsedUS int64    `json:"sim_elapsed_us"`         // fake time covered by this search
-	BoardDiff    string   `json:"board_diff,omitempty"`   // non-empty: board differs after Go
-	IterBounds   []int    `json:"-"`                      // poll index at which each info line was written
+	AbortPoll    int      `json:"abort_poll,omitempty"`  // first poll at which the abort condition was visible
+	PollsAfter   int      `json:"polls_after,omitempty"` // polls executed from then until return
+	MaxNodesSeen int      `json:"max_nodes_seen"`        // largest Counters.Nodes observed at any poll
+	Overspend    string   `json:"overspend,omitempty"`   // first observation of Counters.Nodes > hard budget
+	Capped       bool     `json:"capped,omitempty"`      // harness safety cap closed the stop channel
+	SimElapsedUS int64    `json:"sim_elapsed_us"`        // fake time covered by this search
+	BoardDiff    string   `json:"board_diff,omitempty"`  // non-empty: board differs after Go
+	IterBounds   []int    `json:"-"`                     // poll index at which each info line was written
 	lineNodes    []int    // Counters.Nodes when each line was written
 }
 
@@ -76,7 +76,7 @@ const (
 	// the implementation.
 	livenessPolls = 1000
 	// pollCap stops runaway searches (harness safety, not a verdict).
-	pollCap = 6_000_000
+	pollCap = 600_000
 )
 
 type livenessAbort struct{ detail string }
@@ -84,26 +84,26 @@ type livenessAbort struct{ detail string }
 // agent is the simulator's handle on one running search: it is driven from
 // the yield hook at the top of every abort poll.
 type agent struct {
-	req    Request
-	sched  Sched
-	qi     int
-	qleft  int
-	coop   *coop
-	stop   chan struct{}
-	closed bool
-	hitCh  chan time.Time
-	hit    bool
+	req     Request
+	sched   Sched
+	qi      int
+	qleft   int
+	coop    *coop
+	stop    chan struct{}
+	closed  bool
+	hitCh   chan time.Time
+	hit     bool
 	extStop bool // the stop channel belongs to somebody else (the UCI driver)
 
-	polls      int
-	abortPoll  int
-	after      int
-	maxNodes   int
-	overspend  string
-	capped     bool
-	pollCap    int
-	lines      *lineRecorder
-	onPoll     func(a *agent, s *search.Search, o *search.Options) // optional extra observer
+	polls     int
+	abortPoll int
+	after     int
+	maxNodes  int
+	overspend string
+	capped    bool
+	pollCap   int
+	lines     *lineRecorder
+	onPoll    func(a *agent, s *search.Search, o *search.Options) // optional extra observer
 }
 
 // coop is the hand-off between an interleaved engine and the scheduler.
